@@ -981,6 +981,121 @@ func extractTypeSwitches(repo string, o *out) {
 	}
 }
 
+// ---------------------------------------------------------------------------------------------------
+// the ancestor walk: which decisive statements `doAncestors` makes, in source order
+
+func extractWalk(f *file, o *out) {
+	fd := f.meths["doAncestors"]
+	if fd == nil {
+		die("location.go: method doAncestors of *Location not found")
+	}
+	recv := f.recv["doAncestors"]
+	steps := []string{}
+	var classify func(st ast.Stmt)
+	errReturn := func(s *ast.IfStmt) bool {
+		if goText(s.Cond) != "err != nil" || len(s.Body.List) != 1 {
+			return false
+		}
+		rs, ok := s.Body.List[0].(*ast.ReturnStmt)
+		return ok && len(rs.Results) == 1 && goText(rs.Results[0]) == "err"
+	}
+	classify = func(st ast.Stmt) {
+		switch s := st.(type) {
+		case *ast.IfStmt:
+			cond := goText(s.Cond)
+			ret := ""
+			if len(s.Body.List) == 1 {
+				if rs, ok := s.Body.List[0].(*ast.ReturnStmt); ok && len(rs.Results) == 1 {
+					ret = goText(rs.Results[0])
+				}
+			}
+			switch {
+			case s.Init != nil && strings.Contains(goText(s.Cond), "err != nil") && len(s.Body.List) == 1:
+				// if err = p.doAncestors(ctx, fn, path, done); err != nil { return err }
+				if as, ok := s.Init.(*ast.AssignStmt); ok && len(as.Rhs) == 1 && strings.Contains(goText(as.Rhs[0]), ".doAncestors(") && ret == "err" {
+					steps = append(steps, "recurse:"+goText(as.Rhs[0]))
+					return
+				}
+				steps = append(steps, "other:"+cond)
+			case cond == "path["+recv+".Name]" && ret == "AncestorLoop":
+				steps = append(steps, "pathCheck")
+			case cond == "done["+recv+".Name]" && ret == "nil":
+				steps = append(steps, "doneCheck")
+			case errReturn(s):
+				steps = append(steps, "errReturn")
+			case cond == "parent == "+recv+".Name" && ret == "AncestorLoop":
+				steps = append(steps, "selfParentCheck")
+			case cond == recv+".Provider == nil" && ret == "NoLocationProvider":
+				steps = append(steps, "providerCheck")
+			case cond == "0 < len(parents)" && s.Else == nil:
+				steps = append(steps, "ifParents{")
+				for _, b := range s.Body.List {
+					classify(b)
+				}
+				steps = append(steps, "}")
+			default:
+				steps = append(steps, "other:if "+cond)
+			}
+		case *ast.AssignStmt:
+			t := goText(s.Lhs[0])
+			r := goText(s.Rhs[0])
+			switch {
+			case t == "path["+recv+".Name]" && r == "true":
+				steps = append(steps, "pathMark")
+			case t == "done["+recv+".Name]" && r == "true":
+				steps = append(steps, "doneMark")
+			case r == recv+".getParents(ctx)":
+				steps = append(steps, "parentsRead")
+			case r == recv+".Provider.GetLocation(ctx, parent)":
+				steps = append(steps, "parentGet")
+			default:
+				steps = append(steps, "other:"+t+" = "+r)
+			}
+		case *ast.DeferStmt:
+			if goText(s.Call) == "delete(path, "+recv+".Name)" {
+				steps = append(steps, "pathUnmarkDeferred")
+			} else {
+				steps = append(steps, "other:defer "+goText(s.Call))
+			}
+		case *ast.RangeStmt:
+			if goText(s.X) == "parents" {
+				steps = append(steps, "forParents{")
+				for _, b := range s.Body.List {
+					classify(b)
+				}
+				steps = append(steps, "}")
+			} else {
+				steps = append(steps, "other:range "+goText(s.X))
+			}
+		case *ast.ReturnStmt:
+			if len(s.Results) == 1 && goText(s.Results[0]) == "fn("+recv+")" {
+				steps = append(steps, "visit")
+			} else if len(s.Results) == 1 {
+				steps = append(steps, "return:"+goText(s.Results[0]))
+			} else {
+				steps = append(steps, "other:return")
+			}
+		case *ast.ExprStmt:
+			if isLog(s) {
+				return
+			}
+			steps = append(steps, "other:"+goText(s.X))
+		default:
+			steps = append(steps, fmt.Sprintf("other:%T", st))
+		}
+	}
+	for _, st := range fd.Body.List {
+		classify(st)
+	}
+	q := []string{}
+	for _, x := range steps {
+		q = append(q, leanString(x))
+	}
+	fmt.Fprintf(&o.log, "doAncestors: %s  (%s)\n", strings.Join(steps, " "), f.pos(fd))
+	o.def("`Location.doAncestors`: its decisive statements in source order (loop test on the current path first, then the test for a location already visited, the parents before the location itself, the visit last)",
+		"def doAncestorsShape : List String := ["+strings.Join(q, ", ")+"]")
+}
+
 func main() {
 	repo := flag.String("repo", "/repo", "rulio source tree")
 	outPath := flag.String("out", "", "Lean file to (re)write; empty = print only")
@@ -1060,6 +1175,7 @@ func main() {
 	extractGenPropId(st, o)
 	extractClockReads(*repo, o)
 	extractTypeSwitches(*repo, o)
+	extractWalk(loc, o)
 
 	fmt.Fprintf(&o.lean, "end Gen\n")
 	fmt.Fprintf(&o.log, "state-touching methods: %s\n", strings.Join(sm, " "))
